@@ -384,6 +384,30 @@ func checkC09(c *Ctx) {
 		}
 	}
 	r.OK("C09.S2", "globals", "", fmt.Sprintf("%d package-level variables examined over %d functions: %d written in reach of %s", len(moduleGlobals(p)), len(funcs), stateful, FuncKey(core.validate)))
+	// the compile function must hand out a value of its own: no package-level state may be written in its reach either,
+	// except monotone atomic counters (fresh names), or a later compilation could change what an earlier handle denotes
+	creach := p.Reach(core.compile)
+	var cfuncs []*ssa.Function
+	for f := range creach {
+		cfuncs = append(cfuncs, f)
+	}
+	sort.Slice(cfuncs, func(i, j int) bool { return FuncKey(cfuncs[i]) < FuncKey(cfuncs[j]) })
+	cstate := 0
+	for _, g := range moduleGlobals(p) {
+		acc := accessesOf(p, ms, g, cfuncs)
+		var w []string
+		for _, a := range acc {
+			if a.Kind == "write" || a.Kind == "alias-mutation" || a.Kind == "address-escapes" || (a.Kind == "atomic" && (strings.Contains(a.Detail, ".Store") || strings.Contains(a.Detail, ".Swap"))) {
+				w = append(w, fmt.Sprintf("%s (%s: %s) at %s", FuncKey(a.Fn), a.Kind, a.Detail, p.Pos(a.Instr.Pos())))
+			}
+		}
+		sort.Strings(w)
+		if len(w) > 0 {
+			cstate++
+			r.Bad("C09.S2", "compile:"+globalKey(g), p.Pos(g.Pos()), "package-level state is written in reach of the compile function, so a later compilation can change what an earlier compiled profile denotes: "+strings.Join(w, "; "))
+		}
+	}
+	r.OK("C09.S2", "compile-globals", "", fmt.Sprintf("%d functions in reach of %s: %d package-level variables written (monotone atomic counters excepted)", len(cfuncs), FuncKey(core.compile), cstate))
 	// the compiled profile is only read
 	for _, fn := range funcs {
 		for i, prm := range fn.Params {
